@@ -24,6 +24,7 @@ type SolveResult struct {
 	Output string // full stdout of the winning (or last) solver
 	Model  map[string]string
 	Values []string
+	Retried bool
 	Second string // thorough tier: a second solver's verdict ("" if not run / no answer)
 }
 
